@@ -15,7 +15,7 @@ enum TreeOp { T_INSERT, T_INSERT_DUP, T_REMOVE, T_REMOVE_FOUND, T_SEARCH, T_BURS
 static char const *const TREE_OP_NAMES[] = {"insert", "insert_dup", "remove", "remove_found", "search", "burst", "iterate", "tear"};
 
 template <class NodeT> struct TEntry { NodeT link; int key; int id; };
-static int g_cmp_calls_tree = 0;
+static uint64_t g_cmp_calls_tree = 0; // 64-bit: a worker performs billions of comparisons in a thorough batch
 static int g_cmp_style = 0; // 0: -1/0/+1   1: key difference   2: huge magnitudes (only the sign is documented)
 static inline int cmp_result(int a, int b)
 {
